@@ -567,8 +567,10 @@ class Analysis(object):
         if not l:
             return ('?', 0)
         f = l[0] or '?'
-        if f.startswith('/repo/'):
-            f = f[6:]
+        from . import build
+        root = build.REPO.rstrip('/') + '/'
+        if f.startswith(root):
+            f = f[len(root):]
         return (f, l[1])
 
     def findings(self):
